@@ -15,6 +15,7 @@ import (
 	"runtime"
 	"strings"
 	"sync"
+	"sync/atomic"
 	"testing"
 	"time"
 
@@ -27,7 +28,7 @@ import (
 )
 
 type c17Step struct {
-	Kind string `json:"kind"` // dial null idle close refuse stop closenfs unexport
+	Kind string `json:"kind"` // dial null idle close refuse stop closenfs unexport inflight (N: release the parked request N x 15 ms into the next shutdown call)
 	N    int    `json:"n"`
 }
 
@@ -39,11 +40,16 @@ type c17Case struct {
 }
 
 func genC17(t *rapid.T) c17Case {
-	c := c17Case{MaxConn: rapid.IntRange(1, 6).Draw(t, "max"), IdleMs: pick(t, "idle", 100, 150, 200, 300, 60000, 60000), Via: pick(t, "via", "listen", "listen", "export")}
+	c := c17Case{MaxConn: rapid.IntRange(1, 6).Draw(t, "max"), IdleMs: pick(t, "idle", 100, 150, 200, 300, 60000, 60000), Via: pick(t, "via", "listen", "export")}
 	n := rapid.IntRange(2, 9).Draw(t, "n")
 	for i := 0; i < n; i++ {
 		st := c17Step{Kind: pick(t, "kind", "dial", "dial", "dial", "null", "close", "close", "idle", "refuse", "stop", "closenfs", "unexport"), N: rapid.IntRange(1, 8).Draw(t, "k")}
 		c.Steps = append(c.Steps, st)
+		if c.Via == "export" && rapid.IntRange(0, 2).Draw(t, "inflight") == 0 {
+			// a request parked inside the backend while the shutdown call that follows runs
+			c.Steps = append(c.Steps, c17Step{Kind: "inflight", N: rapid.IntRange(1, 8).Draw(t, "release_after")})
+			c.Steps = append(c.Steps, c17Step{Kind: pick(t, "shutdown", "closenfs", "closenfs", "unexport", "stop"), N: 1})
+		}
 	}
 	c.Steps = append(c.Steps, c17Step{Kind: pick(t, "final", "stop", "closenfs", "unexport", "stop")})
 	return c
@@ -143,6 +149,7 @@ func runC17(tb stat.TB, c c17Case) {
 		srv.Stop()
 		n.Close()
 	}()
+	inflightOpen := false
 	openServed := func() int {
 		k := 0
 		for _, cc := range conns {
@@ -150,11 +157,63 @@ func runC17(tb stat.TB, c c17Case) {
 				k++
 			}
 		}
+		if inflightOpen {
+			k++
+		}
 		return k
 	}
 	touch := time.Now() // last time any open connection was used
 	_ = touch
 	refusals := false
+	// in-flight request machinery: a LOOKUP parked inside the backend (its first Lstat) on its own connection
+	type c17Parked struct {
+		conn    net.Conn
+		gate    chan struct{}
+		delay   time.Duration
+		opened  time.Time
+		release sync.Once
+	}
+	var armed atomic.Bool
+	var parkedCh chan struct{}
+	var curGate chan struct{}
+	var inflight *c17Parked
+	var rootFh []byte
+	inflightSeen := false
+	_ = inflightSeen
+	v.SetBefore(func(call *vfs.Call) {
+		if call.Op == "Lstat" && armed.CompareAndSwap(true, false) {
+			g := curGate
+			close(parkedCh)
+			<-g
+		}
+	})
+	openGate := func(p *c17Parked) {
+		p.release.Do(func() { p.opened = time.Now(); close(p.gate) })
+	}
+	// drainInflight lets the parked request finish and drops its connection (before steps that are not a shutdown)
+	drainInflight := func() {
+		if inflight == nil {
+			return
+		}
+		openGate(inflight)
+		inflight.conn.SetDeadline(time.Now().Add(3 * time.Second))
+		nfsx.ReadRecord(inflight.conn, 1<<20)
+		inflight.conn.Close()
+		inflight = nil
+		inflightOpen = false
+		for i := 0; i < 300; i++ {
+			if cnt, _ := srv.VerifConnCounts(); cnt <= openServed() {
+				break
+			}
+			time.Sleep(10 * time.Millisecond)
+		}
+	}
+	defer func() {
+		if inflight != nil {
+			openGate(inflight)
+			inflight.conn.Close()
+		}
+	}()
 	// populate handles and caches so that Close/Unexport have something to release
 	if cl, err := net.DialTimeout("tcp", addr, 2*time.Second); err == nil {
 		cl.SetDeadline(time.Now().Add(3 * time.Second))
@@ -162,6 +221,7 @@ func runC17(tb stat.TB, c c17Case) {
 		if rec, err := nfsx.ReadRecord(cl, 1<<20); err == nil {
 			if rp, err := nfsx.ParseReply(rec); err == nil {
 				if m, err := nfsx.DecodeMount3(1, rp.Body); err == nil && m.Status == 0 {
+					rootFh = m.Fh
 					cl.Write(nfsx.Frame(nfsx.Call(2, nfsx.ProgNFS, 3, nfsx.ProcReaddirplus, nfsx.AuthSys(1, "h", 0, 0, nil), nfsx.AuthNone(), nfsx.ArgsReaddirplus(m.Fh, 0, [8]byte{}, 4096, 8192))))
 					nfsx.ReadRecord(cl, 1<<20)
 				}
@@ -181,7 +241,34 @@ func runC17(tb stat.TB, c c17Case) {
 		if stop {
 			break
 		}
+		if st.Kind != "stop" && st.Kind != "closenfs" && st.Kind != "unexport" {
+			drainInflight()
+		}
 		switch st.Kind {
+		case "inflight":
+			if c.Via != "export" || stopped || nfsClosed || rootFh == nil || openServed() >= c.MaxConn {
+				continue
+			}
+			cl, err := net.DialTimeout("tcp", addr, 2*time.Second)
+			if err != nil {
+				continue
+			}
+			p := &c17Parked{conn: cl, gate: make(chan struct{}), delay: time.Duration(st.N) * 15 * time.Millisecond}
+			parkedCh, curGate = make(chan struct{}), p.gate
+			armed.Store(true)
+			xid++
+			cl.SetDeadline(time.Now().Add(30 * time.Second))
+			cl.Write(nfsx.Frame(nfsx.Call(xid, nfsx.ProgNFS, 3, nfsx.ProcLookup, nfsx.AuthSys(1, "h", 0, 0, nil), nfsx.AuthNone(), nfsx.ArgsDirop(rootFh, "f"))))
+			select {
+			case <-parkedCh:
+				inflight = p
+				inflightOpen = true
+				inflightSeen = true
+			case <-time.After(2 * time.Second):
+				armed.Store(false)
+				close(p.gate)
+				cl.Close()
+			}
 		case "dial":
 			if stopped {
 				// after Stop dials must be refused (or the connection closed at once without service)
@@ -365,6 +452,10 @@ func runC17(tb stat.TB, c c17Case) {
 			if open > 0 {
 				nt = true
 			}
+			if inflight != nil {
+				p := inflight
+				go func() { time.Sleep(p.delay); openGate(p) }()
+			}
 			for rep := 0; rep < 2; rep++ {
 				done := make(chan error, 1)
 				go func() { done <- srv.Stop() }()
@@ -378,6 +469,15 @@ func runC17(tb stat.TB, c c17Case) {
 				}
 			}
 			stopped = true
+			if inflight != nil {
+				openGate(inflight)
+				if !c17SawEOF(inflight.conn, 2*time.Second) {
+					viol("connection-open-after-stop", "step#%d: the connection of a request that was in flight is still open 2 s after Stop returned", si)
+				}
+				inflight.conn.Close()
+				inflight = nil
+				inflightOpen = false
+			}
 			for _, cc := range conns {
 				if cc.closed || cc.dead {
 					continue
@@ -403,6 +503,13 @@ func runC17(tb stat.TB, c c17Case) {
 				viol("connections-counted-after-stop", "step#%d: connCount=%d tracked=%d after Stop", si, cnt, tracked)
 			}
 		case "closenfs", "unexport":
+			var firstReturned time.Time
+			h1, a1, d1 := 0, 0, 0 // table and cache sizes when the first call returned
+			parkedDuring := inflight
+			if inflight != nil {
+				p := inflight
+				go func() { time.Sleep(p.delay); openGate(p) }()
+			}
 			for rep := 0; rep < 2; rep++ {
 				var err error
 				func() {
@@ -420,11 +527,40 @@ func runC17(tb stat.TB, c c17Case) {
 				if err != nil {
 					viol("close-reports-error", "step#%d: %s (call %d) returned %v", si, st.Kind, rep+1, err)
 				}
+				if rep == 0 {
+					firstReturned = time.Now()
+					h1, a1 = n.VerifFileMap().Count(), n.VerifAttrCache().Size()
+					if dc := n.VerifDirCache(); dc != nil {
+						d1 = dc.Size()
+					}
+				}
+			}
+			if parkedDuring != nil {
+				openGate(parkedDuring)
+				parkedDuring.conn.Close()
+				inflight = nil
+				inflightOpen = false
+				nt = true
+				if !parkedDuring.opened.Before(firstReturned) {
+					// the machine was too slow to let the request go while the call was running: nothing to judge
+					stat.Label("inflight_released_too_late", 1)
+					nfsClosed = true
+					stopped = true
+					continue
+				}
+				stat.Label("shutdown_with_request_in_flight", 1)
 			}
 			if c.Via == "export" {
 				stopped = true // Close/Unexport stop the server Export() created
 			}
 			nfsClosed = true
+			if h1 != 0 || a1 != 0 || d1 != 0 {
+				extra := ""
+				if parkedDuring != nil {
+					extra = " (a LOOKUP was being executed by the backend when the call started and finished while it ran)"
+				}
+				viol("state-remains-when-close-returns", "step#%d: when the first %s call returned %d file handles, %d attribute-cache and %d directory-cache entries remained%s", si, st.Kind, h1, a1, d1, extra)
+			}
 			if h := n.VerifFileMap().Count(); h != 0 {
 				viol("handles-remain-after-close", "step#%d: %d file handles remain after %s", si, h, st.Kind)
 			}
